@@ -21,7 +21,7 @@ from .runners import Case
 from . import refmodel as R
 
 use_repo()
-from asynciojobs import Scheduler, PureScheduler, AbstractJob, Sequence   # noqa: E402
+from asynciojobs import Scheduler, PureScheduler, AbstractJob, Sequence, PrintJob   # noqa: E402
 
 
 class N(AbstractJob):
@@ -44,6 +44,25 @@ class N(AbstractJob):
 
     async def co_shutdown(self):
         return None
+
+
+class NP(PrintJob):
+    """the library's own PrintJob as a graph node; its messages go to print()
+    as they are: they need not be strings, nor be there at all"""
+
+    def __init__(self, name, h=0, messages=(), **kw):
+        self.name = name
+        self._h = h
+        PrintJob.__init__(self, *messages, label=kw.pop('label', name), **kw)
+
+    def __hash__(self):
+        return self._h
+
+    def __eq__(self, other):
+        return self is other
+
+    def __repr__(self):
+        return self.name
 
 
 class S(Scheduler):
@@ -100,6 +119,20 @@ def line_budget(limit):
         yield state
     finally:
         sys.settrace(old)
+
+
+ODD_LABELS = [7, 3.5, (1, 2), 'zz', '', None, -1, 'a\nb']
+
+
+def odd_labels(rng, jobs, p=0.3):
+    """labels need not be strings (nor be there at all): some jobs get a
+    number, a tuple, an empty string, None ..."""
+    done = 0
+    for j in jobs:
+        if rng.random() < p:
+            j.label = rng.choice(ODD_LABELS)
+            done += 1
+    return done
 
 
 def names(jobs):
@@ -262,8 +295,10 @@ def c15_exhaustive(prop, key, index, tier):
             if any(nested.get(b) == 'empty' for bs in req.values() for b in bs):
                 out.count('  ... that some node requires')
         sched, jobs = build_flat(req, cls, hashes, forever=forever, nested=nested, foreign=False)
-        if rng.random() < 0.15:
+        if rng.random() < 0.25:
             sched.verbose = True
+        if rng.random() < 0.3 and odd_labels(rng, jobs.values(), 0.6):
+            out.count('graphs whose jobs carry labels of mixed types')
         where = "%s%s hashes=%s forever=%s nested=%s" % (cls.__name__, {k: sorted(v) for k, v in req_names.items()},
                                                          hashes, sorted(forever), nested)
         got = _topo_checks(out, sched, req_names, member_names, acyclic, where)
@@ -338,6 +373,8 @@ def c15_tree(prop, key, index, tier):
             for b in bs:
                 jobs[a].required.add(jobs[b])
         members = [jobs[i] for i in range(n)]
+        if rng.random() < 0.25:
+            odd_labels(rng, members, 0.5)
         rng.shuffle(members)
         if level == 0:
             s = P(*members) if rng.random() < 0.5 else S("TOP", 0, *members)
@@ -393,6 +430,10 @@ def c15_history(prop, key, index, tier):
     rng.shuffle(hashes)
     cls = rng.choice([P, S])
     sched, jobs = build_flat(req, cls, hashes)
+    if rng.random() < 0.3:
+        sched.verbose = True
+    if rng.random() < 0.3:
+        odd_labels(rng, jobs.values(), 0.6)
     # half of the nestable ones live inside an enclosing scheduler for the whole
     # history: what is asked of the scheduler is asked of its ancestor too
     outer = None
@@ -404,6 +445,7 @@ def c15_history(prop, key, index, tier):
     flips = 0
     prev = True
     steps = []
+    held = []
     for step in range(rng.randint(4, 12)):
         r = rng.random()
         if r < 0.10 and prev and 'run()' not in steps:
@@ -436,6 +478,18 @@ def c15_history(prop, key, index, tier):
             sched = P(*members) if cls is P else S("TOP%d" % step, 0, *members)
             steps.append('moved to a new %s' % cls.__name__)
             out.count('job sets moved into a new scheduler')
+        elif r < 0.38:
+            # somebody starts scanning the scheduler and stops after the first
+            # job (a search that found what it wanted); the generator object
+            # stays around, never resumed
+            gen = sched.topological_order()
+            try:
+                next(gen, None)
+            except Exception:                           # noqa  cyclic at the moment
+                pass
+            held.append(gen)
+            steps.append('scan abandoned after one job')
+            out.count('scans abandoned half-way (generator kept)')
         else:
             a, b = rng.sample(range(n), 2)
             if b in req[a]:
@@ -488,7 +542,11 @@ def c16_tree(prop, key, index, tier):
             if depth < 2 and rng.random() < 0.3:
                 members.append(mk(depth + 1))
             else:
-                a = N("n%d" % next(counter), rng.randrange(64))
+                if rng.random() < 0.15:
+                    a = NP("n%d" % next(counter), rng.randrange(64),
+                           messages=rng.choice([(), (42,), (None, 'x'), ('hello',), (3.5, 'y')]))
+                else:
+                    a = N("n%d" % next(counter), rng.randrange(64))
                 atoms.append(a)
                 members.append(a)
         if depth == 0 and rng.random() < 0.3:
@@ -594,11 +652,24 @@ def c16_tree(prop, key, index, tier):
     rounds = 2 if rng.random() < 0.5 else 1
     for rnd in range(rounds):
         if rnd:
-            # second round on the same objects: new requirements, some dangling, appear
-            for j in rng.sample(jobs, min(len(jobs), rng.randint(1, 3))):
-                r = rng.choice(pool)
-                if r is not j:
-                    j.required.add(r)
+            emptied = False
+            flat = [s_ for s_ in scheds if s_ is not top and s_.jobs and all(j in atoms for j in s_.jobs)]
+            if flat and rng.random() < 0.35:
+                # a nested scheduler loses all its jobs between the two rounds
+                s_ = rng.choice(flat)
+                for j in list(s_.jobs):
+                    s_.remove(j)
+                    del member_of[j]
+                    jobs.remove(j)
+                    atoms.remove(j)
+                emptied = True
+                out.count('nested schedulers emptied between two rounds')
+            if not (emptied and rng.random() < 0.6):
+                # second round on the same objects: new requirements, some dangling, appear
+                for j in rng.sample(jobs, min(len(jobs), rng.randint(1, 3))):
+                    r = rng.choice(pool)
+                    if r is not j:
+                        j.required.add(r)
             out.count('second rounds (new edges after a first sanitize())')
         before = {j: set(j.required) for j in jobs}
         expect_fine = all(before[j] <= set(member_of[j].jobs) for j in jobs)
@@ -606,7 +677,9 @@ def c16_tree(prop, key, index, tier):
         try:
             with contextlib.redirect_stdout(buf):
                 r1 = top.sanitize(verbose=True) if verbose_call and rnd == 0 else top.sanitize()
-                r2 = top.sanitize()
+                # (not always asked twice when another round follows: a
+                # second, clean scan would wipe whatever the first one left)
+                r2 = top.sanitize() if rnd == rounds - 1 or rng.random() < 0.5 else True
         except BaseException as exc:                    # noqa
             out.violation('sanitize-raised', "sanitize() raised %r" % (exc,))
             return finish(prop, out, key, index, tier, 'c16_tree', (key,))
@@ -814,6 +887,24 @@ def _apply_edit(rng, sched, jobs, req, members, spare, out):
     return None
 
 
+def _downward(rng, sched, jobs, req, out):
+    """some members require a job that lives INSIDE a nested member (a link
+    leaving the scheduler downwards: not a requirement between members, queries
+    must ignore it); now and then the scheduler is verbose"""
+    for name, j in list(jobs.items()):
+        inner = getattr(j, '_inner', None)
+        if inner and rng.random() < 0.5:
+            others = [a for a in jobs if a != name]
+            if others:
+                a = rng.choice(sorted(others))
+                jobs[a].required.add(inner[0])
+                req[a].add(inner[0].name)
+                out.count('members requiring a job that lives inside a nested member')
+    if rng.random() < 0.25:
+        sched.verbose = True
+        out.count('queries put to a verbose scheduler')
+
+
 def c17_space(tier):
     return [1, 2, 3, 4] + ([5] if tier == 'thorough' else [])
 
@@ -846,7 +937,9 @@ def c17_exhaustive(prop, key, index, tier):
     hashes = list(range(n))
     rng.shuffle(hashes)
     out.count('DAGs with %d nodes' % n)
+    req0 = req
     for cls in (P, S):
+        req = {k: set(v) for k, v in req0.items()}
         nested = {int(a[1:]): rng.choice(['empty', 'full']) for a in members if rng.random() < 0.2}
         if nested:
             out.count('graphs in which some members are nested schedulers')
@@ -856,6 +949,7 @@ def c17_exhaustive(prop, key, index, tier):
                                  {int(a[1:]): hashes[k] for k, a in enumerate(sorted(members))},
                                  forever={int(a[1:]) for a in forever}, nested=nested)
         jobs = {"n%d" % k: v for k, v in jobs.items()}
+        _downward(rng, sched, jobs, req, out)
         starts_list = [s for s in R.subsets_upto(sorted(members), 3) if s]
         where = "%s %s" % (cls.__name__, {k: sorted(v) for k, v in req.items()})
         _check_queries(out, sched, req, members, forever, starts_list, where)
@@ -905,6 +999,7 @@ def c17_random(prop, key, index, tier):
             out.count('graphs with an empty nested scheduler as a member')
     sched, jobs = build_flat(base, cls, hashes, forever={int(a[1:]) for a in forever}, nested=nested)
     jobs = {"n%d" % k: v for k, v in jobs.items()}
+    _downward(rng, sched, jobs, req, out)
     mem = sorted(members)
     starts_list = [{a} for a in mem] + [set(rng.sample(mem, rng.randint(2, 3))) for _ in range(10)]
     where = "%s %s" % (cls.__name__, {k: sorted(v) for k, v in req.items()})
@@ -1133,7 +1228,7 @@ def _between(req, members, starts, ends, keep_starts, keep_ends):
     return kept
 
 
-def _check_between(out, req, cls, hashes, starts, ends, ks, ke, where, iterators=False, foreign=(0, 0)):
+def _check_between(out, req, cls, hashes, starts, ends, ks, ke, where, iterators=False, foreign=(0, 0), budget=None):
     """foreign = (number of jobs that are not members added to starts, to ends):
     they are downstream / upstream of nothing; whatever the library does with
     them, the members kept must be the documented ones and the result closed"""
@@ -1167,7 +1262,16 @@ def _check_between(out, req, cls, hashes, starts, ends, ks, ke, where, iterators
     buf = io.StringIO()
     try:
         with contextlib.redirect_stdout(buf):
-            sched.keep_only_between(**kw)
+            if budget:
+                with line_budget(budget) as spent:
+                    sched.keep_only_between(**kw)
+                out.count('surgery done under a budget of logical steps')
+                out.count('  ... library lines executed', spent[0])
+            else:
+                sched.keep_only_between(**kw)
+    except BudgetExceeded as exc:
+        out.violation('between-no-answer', "%s: %s gave no answer: %s" % (where, desc[:200], exc))
+        return
     except BaseException as exc:                        # noqa
         out.violation('between-raised', "%s: %s raised %r" % (where, desc, exc))
         return
@@ -1181,6 +1285,30 @@ def _check_between(out, req, cls, hashes, starts, ends, ks, ke, where, iterators
             out.violation('between-requirements', "%s: %s: %s requires %s, expected %s"
                           % (where, desc, a, sorted(req2[a]), sorted(want)))
     _closed_acyclic(out, sched, "%s %s" % (where, desc))
+
+
+def c18_large(prop, key, index, tier):
+    """keep_only_between() and bypass_and_remove() on path-rich DAGs of 40-150
+    jobs, under a budget of logical steps far above what the linear algorithms
+    need: a subset that never comes is not the documented subset"""
+    out = Out(prop)
+    rng = random.Random(key)
+    kind, base = large_dag(rng)
+    req = {"n%d" % a: {"n%d" % b for b in bs} for a, bs in base.items()}
+    names_ = sorted(req)
+    hashes = {a: rng.randrange(256) for a in names_}
+    cls = rng.choice([P, S])
+    up = R.closure(req, set(req))
+    deepest = max(names_, key=lambda a: len(up[a]))
+    shallow = min(names_, key=lambda a: len(up[a]))
+    out.count('large DAGs (%s)' % kind)
+    where = "%s %s with %d jobs" % (cls.__name__, kind, len(req))
+    for starts, ends in (({shallow}, {deepest}), (set(), {deepest}), ({shallow}, set()),
+                         (set(rng.sample(names_, 2)), set(rng.sample(names_, 2)))):
+        _check_between(out, req, cls, hashes, starts, ends, rng.random() < 0.5, rng.random() < 0.5, where,
+                       budget=20_000_000)
+    out.nontrivial = True
+    return finish(prop, out, key, index, tier, 'c18_large', (key,), dict(kind=kind, jobs=len(req)))
 
 
 def c18_space(tier):
@@ -1671,7 +1799,7 @@ CASES = {
     'c16_tree': c16_tree,
     'c17_exhaustive': c17_exhaustive, 'c17_random': c17_random, 'c17_iterate': c17_iterate,
     'c17_large': c17_large,
-    'c18_exhaustive': c18_exhaustive, 'c18_history': c18_history,
+    'c18_exhaustive': c18_exhaustive, 'c18_history': c18_history, 'c18_large': c18_large,
     'c19_program': c19_program,
 }
 
